@@ -47,6 +47,9 @@ ASSUMPTIONS = [
     "and keyed lists are driven on the real code and judged by the model-independent oracle only: compared, not proved "
     "(<Show> corresponds to the memoised conditional of the Coq model); Resource (serialising) and Transition inside "
     "<For> rows are not generated",
+    "a Transition created (by a re-running ErrorBoundary closure) in the step whose writes re-trigger a resource it reads "
+    "may show its children or its fallback until that load ends: whether it was built before or after the refetch task "
+    "marked the resource as loading is decided by the schedule",
     "while a resource is loading the oracle accepts, for a boundary whose mounted readers are not loading but whose "
     "unmounted readers' resource is, both the fallback and the children (readers unmounted during a load keep the "
     "boundary suspended until that load ends), and for Suspend(res.await) either of the last two values when a "
@@ -539,9 +542,12 @@ def gen_ltree(rng, nsig, nres, depth, lab, in_susp=False, in_row=False):
             if rng.random() < 0.2:
                 props.append([k, lab.next(), gen_expr(rng, nsig)])
         return [2, props, [gen_ltree(rng, nsig, nres, depth - 1, lab, in_susp, in_row) for _ in range(rng.choice([1, 2, 2, 3]))]]
-    if r < 0.68:
+    if r < 0.62:
         return [3, lab.next(), gen_expr(rng, nsig), gen_ltree(rng, nsig, nres, depth - 1, lab, in_susp, in_row),
-                gen_ltree(rng, nsig, nres, depth - 1, lab, in_susp, in_row)]
+                gen_ltree(rng, nsig, nres, depth - 1, lab, in_susp, in_row) if rng.random() < 0.8 else [10]]
+    if r < 0.68:
+        # a fragment (as the root of a Show branch / ErrorBoundary child / For row, too)
+        return [9, [gen_ltree(rng, nsig, nres, depth - 1, lab, in_susp, in_row) for _ in range(rng.choice([0, 1, 2, 2, 3]))]]
     if r < 0.78 and not in_row:
         keys = rng.sample(range(1, 10), rng.randint(2, 4))
         lists = [list(keys)]
@@ -564,7 +570,7 @@ def gen_ltree(rng, nsig, nres, depth, lab, in_susp=False, in_row=False):
         kids = [gen_ltree(rng, nsig, nres, depth - 1, lab, True, in_row) for _ in range(rng.choice([1, 2, 2]))]
         if not any(readers(k) for k in kids):
             kids.append([rng.choice([6, 7]), lab.next(), rng.randrange(nres)])
-        return [5, lab.next(), int(rng.random() < 0.35), kids]
+        return [5, lab.next(), int(rng.random() < 0.35) | (2 if rng.random() < 0.15 else 0), kids]
     return [8, lab.next(), gen_expr(rng, nsig), gen_ltree(rng, nsig, nres, depth - 1, lab, in_susp, in_row)]
 
 
@@ -576,6 +582,8 @@ def readers(t, s=None):
         return {t[2]}
     if op == 2:
         return set().union(*[readers(k, s) for k in t[2]]) if t[2] else set()
+    if op == 10:
+        return set()
     if op == 3:
         if s is None:
             return readers(t[3], s) | readers(t[4], s)
@@ -588,6 +596,8 @@ def readers(t, s=None):
         if s is not None and ev(t[2], s) == 0:
             return set()
         return readers(t[3], s)
+    if op == 9:
+        return set().union(*[readers(k, s) for k in t[1]]) if t[1] else set()
     return set()
 
 
@@ -608,12 +618,15 @@ def active_transitions(t, s, out):
         if _for_items(t, s):
             active_transitions(t[5], s, out)
     elif op == 5:
-        out[t[1]] = (t[2], set().union(*[readers(k, s) for k in t[3]]) if t[3] else set())
+        out[t[1]] = (t[2] & 1, set().union(*[readers(k, s) for k in t[3]]) if t[3] else set())
         for k in t[3]:
             active_transitions(k, s, out)
     elif op == 8:
         if ev(t[2], s) != 0:
             active_transitions(t[3], s, out)
+    elif op == 9:
+        for k in t[1]:
+            active_transitions(k, s, out)
 
 
 def _prod(alts_list):
@@ -651,11 +664,20 @@ def lnodes(t, s, res, shown=frozenset(), touched=frozenset()):
             rows.append([[[1, [-1, -1, 0, -1], [[0, i * 100 + k if t[2] else k]] + inner]]
                          for inner in lnodes(t[5], s, res, shown, touched)])
         return _prod(rows)
+    if op == 9:
+        return _prod([lnodes(k, s, res, shown, touched) for k in t[1]])
+    if op == 10:
+        return [[]]
     if op == 5:
         active = set().union(*[readers(k, s) for k in t[3]]) if t[3] else set()
-        fallback = [[[0, -t[1]]]]
+        fallback = [[]] if t[2] & 2 else [[[0, -t[1]]]]
         children = _prod([lnodes(k, s, res, shown, touched) for k in t[3]])
-        if t[2] and t[1] in shown:
+        if t[2] & 1 and t[1] in _MAYBE_SHOWN:
+            # a Transition created in the very step that re-triggers a resource it reads: built before the
+            # refetch task started it saw a loaded resource (children shown, kept during the load), built after
+            # it it is a first load (fallback): both are the components' behaviour, the schedule decides
+            return children + [f for f in fallback if f not in children]
+        if t[2] & 1 and t[1] in shown:
             return children
         if any(res[r][1] for r in active):
             return fallback
@@ -682,6 +704,31 @@ def lnodes(t, s, res, shown=frozenset(), touched=frozenset()):
     return [[]]
 
 
+_MAYBE_SHOWN = set()
+
+
+def boundary_readers(t, out):
+    """label -> resources read anywhere below each boundary (all branches)"""
+    op = t[0]
+    if op == 2:
+        for k in t[2]:
+            boundary_readers(k, out)
+    elif op == 3:
+        boundary_readers(t[3], out)
+        boundary_readers(t[4], out)
+    elif op == 4:
+        boundary_readers(t[5], out)
+    elif op == 5:
+        out[t[1]] = set().union(*[readers(k) for k in t[3]]) if t[3] else set()
+        for k in t[3]:
+            boundary_readers(k, out)
+    elif op == 8:
+        boundary_readers(t[3], out)
+    elif op == 9:
+        for k in t[1]:
+            boundary_readers(k, out)
+
+
 def llabels(t):
     op = t[0]
     out = []
@@ -700,6 +747,9 @@ def llabels(t):
             out += llabels(k)
     elif op == 8:
         out += llabels(t[3])
+    elif op == 9:
+        for k in t[1]:
+            out += llabels(k)
     return out
 
 
@@ -722,7 +772,10 @@ def gen_leptos_case(rng):
             elif r < 0.75:
                 comps = [[rng.randrange(nres), rng.choice([0, 0, 1])] for _ in range(rng.randint(1, 2))]
         steps.append([writes, picks, comps])
-    return dict(case=[7, tree, sources, sigs, steps, [int(rng.random() < 0.5), rng.randint(0, 1)]],
+    # resource kind: 0 LocalResource, 2 ArcLocalResource (1 = leptos_server Resource is accepted by the harness and
+    # the oracle, but its memoised source makes fetch starts depend on lazily evaluated values: driven through
+    # hydration by C05's kind hydrate-leptos instead, where a client-built twin is the reference)
+    return dict(case=[7, tree, sources, sigs, steps, [int(rng.random() < 0.5), rng.randint(0, 1), rng.choice([0, 0, 2, 2])]],
                 kind="leptos-components", compare=False)
 
 
@@ -739,12 +792,15 @@ def recreated_transitions(t, written, under, out):
     elif op == 4:
         recreated_transitions(t[5], written, under, out)
     elif op == 5:
-        if t[2] and under:
+        if t[2] & 1 and under:
             out.add(t[1])
         for k in t[3]:
             recreated_transitions(k, written, under, out)
     elif op == 8:
         recreated_transitions(t[3], written, under or bool(rd(t[2]) & written), out)
+    elif op == 9:
+        for k in t[1]:
+            recreated_transitions(k, written, under, out)
 
 
 def lsignals(t):
@@ -766,6 +822,8 @@ def lsignals(t):
         return set().union(*[lsignals(k) for k in t[3]]) if t[3] else set()
     if op == 8:
         return rd(t[2]) | lsignals(t[3])
+    if op == 9:
+        return set().union(*[lsignals(k) for k in t[1]]) if t[1] else set()
     return set()
 
 
@@ -802,7 +860,8 @@ def luntouched(t, nodes, written, out):
 
 
 def oracle_leptos(item, impl):
-    _seven, tree, sources, sigs, steps, (unmount, _drain) = item["case"]
+    _seven, tree, sources, sigs, steps, fin = item["case"]
+    unmount, _drain = fin[0], fin[1]
     s = list(sigs)
     # an async derived value fetches sequentially: a source change during a fetch is picked up when that
     # fetch has completed.  per resource: value, source value of the fetch in flight (None: idle), dirty
@@ -815,10 +874,17 @@ def oracle_leptos(item, impl):
     # takes them when it starts), whether or not the reader is still mounted
     touched = set()      # (boundary, resource) held during the running load
     reg_next = set()     # (boundary, resource) registered during the running load
+    reskind = fin[2] if len(fin) > 2 else 0
+    last_src = [ev(e, s) for e in sources]
+    _MAYBE_SHOWN.clear()
+    breaders = {}
+    boundary_readers(tree, breaders)
 
-    def start_fetch(r):
+    def start_fetch(r, chained=False):
+        # (a fetch that restarts at once because its source changed meanwhile keeps the resource loading without a
+        # gap: the boundaries suspended by the previous load stay suspended)
         for (l, r2) in list(touched):
-            if r2 == r:
+            if r2 == r and not chained:
                 touched.discard((l, r2))
         for (l, r2) in list(reg_next):
             if r2 == r:
@@ -849,12 +915,14 @@ def oracle_leptos(item, impl):
             return
         res[r][0] = 10 * res[r][1] + r
         res[r][1] = None
+        held = {(l, r2) for (l, r2) in touched if r2 == r}
         for (l, r2) in list(touched):
             if r2 == r:
                 touched.discard((l, r2))
         if res[r][2]:
             res[r][2] = False
-            start_fetch(r)
+            start_fetch(r, chained=True)
+            touched.update(held)
         else:
             settled_value[r] = res[r][0]
         settle_transitions()
@@ -874,6 +942,11 @@ def oracle_leptos(item, impl):
                 written.add(i)
             for r, e in enumerate(sources):
                 if rd(e) & written:
+                    if reskind == 1:
+                        # leptos_server::Resource memoises its source: only another VALUE starts a fetch
+                        if ev(e, s) == last_src[r]:
+                            continue
+                        last_src[r] = ev(e, s)
                     if res[r][1] is None:
                         start_fetch(r)
                     else:
@@ -881,6 +954,9 @@ def oracle_leptos(item, impl):
             gone = set()
             recreated_transitions(tree, written, False, gone)
             shown.difference_update(gone)
+            for l in gone:
+                if any(rd(sources[r]) & written for r in breaders.get(l, ())):
+                    _MAYBE_SHOWN.add(l)
             for reg in (touched, reg_next):
                 for (l, r) in list(reg):
                     if l in gone:
@@ -896,6 +972,10 @@ def oracle_leptos(item, impl):
                     break
                 finish(busy[0] if not _drain else busy[-1])
         settle_transitions()
+        for l in list(_MAYBE_SHOWN):
+            if not any(res[r][1] is not None for r in breaders.get(l, ())):
+                _MAYBE_SHOWN.discard(l)      # the racing load is over: the children are on screen either way
+                shown.add(l)
         got = [plain(x) for x in entry[1]]
         state = [(v, fl is not None, settled_value[r]) for r, (v, fl, _) in enumerate(res)]
         want = lnodes(tree, s, state, frozenset(shown), frozenset(touched))
@@ -1152,6 +1232,8 @@ def oracle_ext(item, impl):
 def oracle(item, impl):
     if isinstance(impl, str):
         return "harness error / panic: " + impl[:200]
+    if not isinstance(impl, list):
+        return "malformed observation"
     if item.get("kind") == "reactive-wide":
         return oracle_wide(item, impl)
     if item.get("kind") == "async-keyed":
@@ -1214,6 +1296,8 @@ def _has_boundary(t):
         return _has_boundary(t[3]) or _has_boundary(t[4])
     if op in (4, 8):
         return _has_boundary(t[5] if op == 4 else t[3])
+    if op == 9:
+        return any(_has_boundary(k) for k in t[1])
     return False
 
 
@@ -1229,13 +1313,16 @@ def _lshape_ok(t, nsig, nres, in_susp=False):
                 and all(len(p) == 3 and p[0] in (0, 1, 2, 3) and _expr_ok(p[2], nsig) for p in t[1])
                 and all(_lshape_ok(k, nsig, nres, in_susp) for k in t[2]))
     if op == 3:
-        return len(t) == 5 and _expr_ok(t[2], nsig) and _lshape_ok(t[3], nsig, nres, in_susp) and _lshape_ok(t[4], nsig, nres, in_susp)
+        return (len(t) == 5 and _expr_ok(t[2], nsig) and _lshape_ok(t[3], nsig, nres, in_susp)
+                and (t[4] == [10] or _lshape_ok(t[4], nsig, nres, in_susp)))
+    if op == 9:
+        return len(t) == 2 and len(t[1]) <= 3 and all(_lshape_ok(k, nsig, nres, in_susp) for k in t[1])
     if op == 4:
         return (len(t) == 6 and t[2] in (0, 1) and 0 <= t[3] < nsig and len(t[4]) >= 1
                 and all(len(set(l)) == len(l) and all(0 < k < 100 for k in l) for l in t[4])
                 and _lshape_ok(t[5], nsig, nres, in_susp) and not _has_boundary(t[5]))
     if op == 5:
-        return (len(t) == 4 and t[2] in (0, 1) and len(t[3]) >= 1 and all(_lshape_ok(k, nsig, nres, True) for k in t[3])
+        return (len(t) == 4 and t[2] in (0, 1, 2, 3) and len(t[3]) >= 1 and all(_lshape_ok(k, nsig, nres, True) for k in t[3])
                 and bool(set().union(*[readers(k) for k in t[3]])))
     if op in (6, 7):
         return len(t) == 3 and in_susp and 0 <= t[2] < nres
@@ -1252,7 +1339,8 @@ def valid_case(item):
             labs = llabels(tree)
             return (seven == 7 and len(labs) == len(set(labs)) and all(0 < l < CLEANUP for l in labs) and bool(sigs)
                     and all(x >= 0 for x in sigs) and all(_expr_ok(e, len(sigs)) for e in sources)
-                    and _lshape_ok(tree, len(sigs), len(sources)) and len(fin) == 2 and all(f in (0, 1) for f in fin)
+                    and _lshape_ok(tree, len(sigs), len(sources)) and len(fin) in (2, 3) and all(f in (0, 1) for f in fin[:2])
+                    and (len(fin) == 2 or fin[2] in (0, 1, 2))
                     and all(len(st) == 3 and all(0 <= i < len(sigs) and x >= 0 for i, x in st[0])
                             and all(isinstance(k, int) and k >= 0 for k in st[1])
                             and all(isinstance(k, list) and len(k) == 2 and 0 <= k[0] < len(sources) and k[1] in (0, 1)
@@ -1409,11 +1497,18 @@ def _lt(t):
         names = ["title", "class", "class:on", "style:width"]
         return "<div%s>%s</div>" % ("".join(" %s={#%d %s}" % (names[k], l, _se(e)) for k, l, e in t[1]), " ".join(_lt(k) for k in t[2]))
     if op == 3:
+        if t[4] == [10]:
+            return "<Show#%d when=%s>%s</Show>" % (t[1], _se(t[2]), _lt(t[3]))
         return "<Show#%d when=%s fallback=%s>%s</Show>" % (t[1], _se(t[2]), _lt(t[4]), _lt(t[3]))
+    if op == 9:
+        return "<>%s</>" % " ".join(_lt(k) for k in t[1])
+    if op == 10:
+        return "()"
     if op == 4:
         return "<%s#%d each=%r[s%d]>%s</>" % ("ForEnumerate" if t[2] else "For", t[1], t[4], t[3], _lt(t[5]))
     if op == 5:
-        return "<%s#%d>%s</>" % ("Transition" if t[2] else "Suspense", t[1], " ".join(_lt(k) for k in t[3]))
+        return "<%s#%d%s>%s</>" % ("Transition" if t[2] & 1 else "Suspense", t[1], " (no fallback)" if t[2] & 2 else "",
+                                   " ".join(_lt(k) for k in t[3]))
     if op == 6:
         return "{#%d Suspend(res%d.await)}" % (t[1], t[2])
     if op == 7:
